@@ -15,6 +15,12 @@ pub const NAMES_ADV: &[&str] = &[
     "é", "\u{1F600}", "a.b", "[0]", "$", "@", "*", "/a", "a/", "~a", "01", "2",
 ];
 
+/// Names for C15: plain ones plus names that carry quote characters (never both kinds, no backslash),
+/// which the generator spells with the other kind of quotes so that no escape is involved.
+pub const NAMES_C15: &[&str] = &[
+    "a", "b", "c", "d", "x", "list", "elems", "k1", "_u", "é", "0", "1", "a b", "key", "a/b", "~", "'a'", "\"a\"", "it's", "'", "\"", "a'", "'a", "\"b", "''",
+];
+
 pub const PATTERNS: &[&str] = &["a", "a|b", "x.y", "^a", "b$", "[ab]+", "(", "\\d+", "(?i)A", ".*", "a.*", "ab"];
 
 pub const STRINGS: &[&str] = &["", "a", "b", "ab", "xay", "A", "1", "aa", "ba"];
@@ -270,6 +276,9 @@ pub struct QGen<'a> {
     pub regex: bool,
     /// allow the five extension functions
     pub ext: bool,
+    /// quote names so that no escape is needed (double quotes around a name containing ', single
+    /// quotes otherwise): the spellings on which every faithful `get` agrees
+    pub safe_quotes: bool,
 }
 
 impl<'a> QGen<'a> {
@@ -281,9 +290,23 @@ impl<'a> QGen<'a> {
         }
     }
 
+    fn q1(&self, n: &str) -> String {
+        if self.safe_quotes && n.contains('\'') {
+            quote_double(n)
+        } else {
+            quote_single(n)
+        }
+    }
+
     fn name_sel(&self, rng: &mut Rng) -> String {
         let n = self.name(rng);
-        if self.fancy && rng.chance(1, 4) {
+        if self.safe_quotes {
+            if n.contains('\'') || (!n.contains('"') && rng.chance(1, 4)) {
+                quote_double(&n)
+            } else {
+                quote_single(&n)
+            }
+        } else if self.fancy && rng.chance(1, 4) {
             quote_double(&n)
         } else {
             quote_single(&n)
@@ -338,7 +361,7 @@ impl<'a> QGen<'a> {
                 if shorthand_ok(&n) {
                     format!(".{}", n)
                 } else {
-                    format!("[{}]", quote_single(&n))
+                    format!("[{}]", self.q1(&n))
                 }
             }
             1 => ".*".to_string(),
@@ -360,7 +383,7 @@ impl<'a> QGen<'a> {
                     if shorthand_ok(&n) {
                         format!("..{}", n)
                     } else {
-                        format!("..[{}]", quote_single(&n))
+                        format!("..[{}]", self.q1(&n))
                     }
                 }
                 1 => "..*".to_string(),
@@ -386,7 +409,7 @@ impl<'a> QGen<'a> {
                     s.push('.');
                     s.push_str(&nm);
                 } else {
-                    s.push_str(&format!("[{}]", quote_single(&nm)));
+                    s.push_str(&format!("[{}]", self.q1(&nm)));
                 }
             } else {
                 s.push_str(&format!("[{}]", rng.range(-2, 3)));
@@ -489,7 +512,7 @@ impl<'a> QGen<'a> {
                         if shorthand_ok(&n) {
                             format!(".{}", n)
                         } else {
-                            format!("[{}]", quote_single(&n))
+                            format!("[{}]", self.q1(&n))
                         }
                     })
                 } else {
